@@ -664,6 +664,37 @@ def h_exp_normalize(I, fi):
                 "weight i = exp(v_i - L) = exp(v_i) / sum_j exp(v_j): positive, and the weights sum to one", kind="post")
 
 
+def h_relabel(I, fi):
+    """relabel(graph): one new directed graph; every parentless node of the consensus graph (roots(graph), by its own contract) is handed to _relabel once, with
+    that new graph as the target and the consensus graph as the source; the new graph is returned"""
+    P = I.P
+    n = alg.sym("n_roots", "Int")
+    P.assume(P.z(n) >= 0)
+    graph = Opaque("consensus-graph")
+    made, calls = [], []
+
+    class NX(Model):
+        def m_DiGraph(self, I_, *a, **k):
+            made.append((a, k))
+            return ("new-graph", len(made))
+
+    I.registry.globals_override["nx"] = NX()
+    I.registry.call_contracts[CONS + ".roots"] = lambda I_, a, k, nd: SymSeq("roots", n, lambda i: ("root", I_.to_num(i).key())) if a[0] is graph else (_ for _ in ()).throw(Unsupported("roots of another graph"))
+    I.registry.call_contracts[CONS + "._relabel"] = lambda I_, a, k, nd: calls.append(list(a))
+    I.registry.generic_loops.add(fi.qualname)
+    out = I.call_function(fi, [graph], {}, force_inline=True)
+    dsl.cover(I, "relabel")
+    gens = P.ghost.get("generic_indices", [])
+    P.check("relabel.one-new-graph-returned", made == [((), {})] and out == ("new-graph", 1), "a fresh directed graph is created, filled and returned", kind="post")
+    if gens:
+        dsl.cover(I, "relabel.some-root")
+        P.check("relabel.every-parentless-node-once", len(gens) == 1 and len(calls) == 1 and calls[0][0] == ("root", gens[0].key()) and calls[0][1] == ("new-graph", 1) and calls[0][2] is graph,
+                "every parentless consensus node is relabelled (with its subtree) into the new graph, from the consensus graph", kind="post")
+    else:
+        dsl.cover(I, "relabel.no-root")
+        P.check("relabel.nothing-without-roots", not calls and not P.feasible(P.z(n) != 0), "no node, nothing to relabel", kind="post")
+
+
 def h_consensus_labels(I, fi):
     """get_tree_from_consensus_graph: the label of every data point listed by a consensus node is that node, every other data point is
     labelled with the outlier node, top-level consensus nodes are attached to the root, and the Tree is built from exactly that."""
@@ -1294,6 +1325,7 @@ def verify_all(ctx, repo, prop="C16"):
     dsl.verify(ctx, repo, dsl.Registry(), prop, PT + ".from_dict_nx", h_from_dict_nx, expect_covers=["from_dict_nx", "from_dict_nx.labelled", "from_dict_nx.edge", "from_dict_nx.clone"])
     dsl.verify(ctx, repo, dsl.Registry(), prop, TU + "._clades", h_clades_rec, expect_covers=["clades.rec"])
     dsl.verify(ctx, repo, dsl.Registry(), prop, CONS + "._relabel", h_relabel_rec, expect_covers=["relabel.rec"])
+    dsl.verify(ctx, repo, dsl.Registry(), prop, CONS + ".relabel", h_relabel, expect_covers=["relabel", "relabel.some-root", "relabel.no-root"])
     dsl.verify(ctx, repo, dsl.Registry(), prop, CONS + ".clean_tree", h_clean_tree, expect_covers=["clean.with-data", "clean.without-data", "clean.empty", "clean.some-node"])
     dsl.verify(ctx, repo, dsl.Registry(), prop, TU + ".get_clades", h_get_clades, expect_covers=["get_clades.some-root", "get_clades.no-root"])
 
